@@ -11,6 +11,7 @@ C2S  statements recorded from the real code (names written by the generator's la
      C01/C02/C03/C15 check names / datatypes / arity of every execution as well
 """
 import decimal
+import datetime
 import json
 import multiprocessing
 import sys
@@ -171,6 +172,24 @@ def run(ctx):
                     continue
                 trace.append({'id': nid, 'ntargets': 0, 'star': 1, 'kind': 'harness', 'cols': [n for n, _ in lay], 'names': [],
                               'desc': [c.name for c in desc], 'arities': sorted({len(r) for r in rows})})
+    # a table that declares its own default columns (wildcard_columns): another order than, and a subset of, its columns
+    class OwnDefaults(ht.HarnessTable):
+        wildcard_columns = ('symbol', 'qty', 'day')
+
+    own = OwnDefaults('own', [('id', 'int'), ('day', 'date'), ('symbol', 'str'), ('qty', 'int'), ('note', 'str')],
+                      [(1, datetime.date(2020, 1, 2), 'a', 3, 'x'), (2, None, 'b', None, None)])
+    oconn = ht.connection(own)
+    for text in ('SELECT * FROM #own', 'SELECT * FROM (SELECT * FROM #own)', 'SELECT * FROM #own WHERE id > 5', 'SELECT * FROM #own ORDER BY id DESC'):
+        nid += 1
+        status, desc, rows = selectq.run_query(oconn, text)
+        if status != 'ok':
+            ctx.violation('wildcard:own-defaults:%s' % type(desc).__name__, 'SELECT * fails: %s' % desc, {'text': text}, 'C2S')
+            continue
+        trace.append({'id': nid, 'ntargets': 0, 'star': 1, 'kind': 'harness', 'cols': list(OwnDefaults.wildcard_columns), 'names': [],
+                      'desc': [c.name for c in desc], 'arities': sorted({len(r) for r in rows})})
+        if rows and text.endswith('#own') and [tuple(r) for r in rows] != [('a', 3, datetime.date(2020, 1, 2)), ('b', None, None)]:
+            ctx.violation('wildcard:own-defaults:values', 'SELECT * : the values are not those of the default columns in their declared order',
+                          {'text': text}, 'C2S', "[('a', 3, 2020-01-02), ('b', None, None)]", repr(rows))
     # ledger statements with expression names and hidden helpers
     for text, names in [
             ('SELECT account, number * 2, year(date) AS y FROM #postings ORDER BY date, lineno', ['account', 'number * 2', 'y']),
